@@ -684,7 +684,10 @@ func (fx *FuncCtx) specCall(env *specEnv, x *ast.CallExpr) sval {
 		}
 		top := env.preTop
 		if top.S == "" {
-			top = Term{"alloc0", SInt}
+			// in the function's own body: an object made by new / a composite literal lies above the
+			// entry frontier, an address-taken local that escapes has a negative reference
+			// (RowView's `var v VecDense; ...; return &v` is a new object for the caller)
+			return sval{Or(Ge(t, Term{"alloc0", SInt}), Lt(t, IntLit(0))), nil}
 		}
 		return sval{Ge(t, top), nil}
 	case "written":
